@@ -12,6 +12,7 @@ import (
 	"go/token"
 	"mime"
 	"net/url"
+	"os"
 	"regexp"
 	"strconv"
 	"strings"
@@ -292,8 +293,12 @@ func loadHashes() {
 	if cssHashMap != nil {
 		return
 	}
-	cssHashConsts = loadHashConsts("/repo/css/hash.go")
-	htmlHashConsts = loadHashConsts("/repo/html/hash.go")
+	repo := "/repo"
+	if d := os.Getenv("VERIF_REPO"); d != "" { // self-tests of the checks on a scratch copy only
+		repo = d
+	}
+	cssHashConsts = loadHashConsts(repo + "/css/hash.go")
+	htmlHashConsts = loadHashConsts(repo + "/html/hash.go")
 	cssHashMap, htmlHashMap = map[string]uint32{}, map[string]uint32{}
 	for _, h := range cssHashConsts {
 		cssHashMap[h.text] = h.val
